@@ -269,6 +269,13 @@ fn gen_direct(rng: &mut Rng, strs: &StrCfg, well_formed: bool) -> PReg {
             types.push((if well_formed { i } else { tablesim::gen_id(rng, n + 2, 300) }, t));
             continue;
         }
+        if !well_formed && rng.permille(25) {
+            // values the library itself uses as fillers: a registry may hold them
+            probe("frame_source.placeholder_like_entry");
+            let t = PType { path: vec![], params: vec![], def: crate::ptype::PDef::Primitive(0), docs: vec![] };
+            types.push((*rng.pick(&[u32::MAX, i, 0]), t));
+            continue;
+        }
         if well_formed {
             types.push((i, tablesim::gen_ptype(rng, strs, n - 1, 0)));
         } else {
@@ -396,7 +403,35 @@ pub fn rewrites_of(site: &layout::Site) -> Vec<Fault> {
     out
 }
 
-fn gen_byte_fault(rng: &mut Rng, len: usize, sites: Option<&[layout::Site]>, frames: usize) -> Fault {
+/// Targeted two-part faults on one string: the string loses its last k bytes
+/// and the length prefix is corrected accordingly - a value that was cut in
+/// the middle (possibly in the middle of a multi-byte character) by a writer
+/// that got the length right.
+pub fn string_cuts(site: &layout::Site, medium: &[u8]) -> Vec<Fault> {
+    let mut out = Vec::new();
+    if site.class != FieldClass::StrLen {
+        return out;
+    }
+    let n = site.value as usize;
+    let start = site.at + site.len;
+    if n == 0 || start + n > medium.len() {
+        return out;
+    }
+    for k in 1..=3usize.min(n) {
+        let mut new = layout::compact((n - k) as u64);
+        new.extend_from_slice(&medium[start..start + n - k]);
+        out.push(Fault::Rewrite {
+            at: site.at,
+            old_len: site.len + n,
+            new,
+            class: FieldClass::StrByte,
+            how: format!("string_cut_by_{}", k),
+        });
+    }
+    out
+}
+
+fn gen_byte_fault(rng: &mut Rng, len: usize, sites: Option<&[layout::Site]>, frames: usize, medium: &[u8]) -> Fault {
     let at = |rng: &mut Rng| if len == 0 { 0 } else { rng.usize_below(len + 1) };
     let small = |rng: &mut Rng| rng.range(1, 9) as usize;
     let w = [12, 18, 8, 8, 8, 5, 5, 3, 3, 3, 27];
@@ -418,6 +453,7 @@ fn gen_byte_fault(rng: &mut Rng, len: usize, sites: Option<&[layout::Site]>, fra
             Some(s) if !s.is_empty() => {
                 let site = rng.pick(s);
                 let mut all = rewrites_of(site);
+                all.extend(string_cuts(site, medium));
                 let k = rng.usize_below(all.len());
                 all.swap_remove(k)
             }
@@ -434,7 +470,7 @@ fn gen_jval(rng: &mut Rng) -> JVal {
         3 => JVal::Int(rng.below(300) as i64),
         4 => JVal::Big(*rng.pick(&[1u64 << 32, u32::MAX as u64, u64::MAX, 256])),
         5 => JVal::Float(rng.below(4) as u32),
-        6 => JVal::Str(rng.pick(&["", "composite", "u8", "bool", "U8", "x", "types", "\u{0}"]).to_string()),
+        6 => JVal::Str(rng.pick(&["", "composite", "u8", "bool", "U8", "x", "types", "\u{0}", "r#", "r#r#", "\u{fc}8"]).to_string()),
         7 => JVal::Str("y".repeat(rng.range(1, 70000) as usize)),
         8 => JVal::Arr,
         9 => JVal::Obj,
@@ -515,6 +551,7 @@ pub fn generate(rng: &mut Rng) -> Result<WireScenario, String> {
         base += b.len();
     }
     let sites = if parser_ok { Some(&all_sites[..]) } else { None };
+    let plain_stream: Vec<u8> = encoded.concat();
     let n_cases = *rng.pick(&[1u64, 4, 8, 16, 32]);
     let mut enabled: Vec<bool> = (0..11).map(|_| rng.permille(700)).collect();
     if !enabled.iter().any(|x| *x) {
@@ -527,7 +564,7 @@ pub fn generate(rng: &mut Rng) -> Result<WireScenario, String> {
                 let nf = rng.range(1, 3);
                 let mut faults = Vec::new();
                 while (faults.len() as u64) < nf {
-                    let f = gen_byte_fault(rng, total, sites, n_frames);
+                    let f = gen_byte_fault(rng, total, sites, n_frames, &plain_stream);
                     let idx = match &f {
                         Fault::Truncate(_) => 0,
                         Fault::FlipBit(..) => 1,
@@ -563,7 +600,7 @@ pub fn generate(rng: &mut Rng) -> Result<WireScenario, String> {
                 let nf = rng.range(1, 3);
                 let faults = (0..nf)
                     .map(|_| loop {
-                        let f = gen_byte_fault(rng, 1 << 20, None, 1);
+                        let f = gen_byte_fault(rng, 1 << 20, None, 1, &[]);
                         if !f.frame_level() {
                             break f;
                         }
@@ -790,6 +827,9 @@ fn sweep_jvals() -> Vec<JVal> {
         JVal::Str("\u{fc}8".to_string()),
         JVal::Str("u8".to_string()),
         JVal::Str("U8".to_string()),
+        JVal::Str("r#".to_string()),
+        JVal::Str("r#r#".to_string()),
+        JVal::Str(" ".to_string()),
         JVal::Str("\u{0}".to_string()),
         JVal::Arr,
         JVal::Obj,
@@ -1546,7 +1586,7 @@ pub const SWEEP_MAX_FRAME: usize = 2048;
 /// Every single fault of the sweep for a frame of `len` bytes with the given
 /// aiming sites: every truncation, every bit flip, an I/O error of every kind
 /// at every offset, every targeted rewrite of every site.
-pub fn sweep_cases(len: usize, sites: Option<&[layout::Site]>) -> Vec<Case> {
+pub fn sweep_cases(len: usize, sites: Option<&[layout::Site]>, bytes: &[u8]) -> Vec<Case> {
     let mut out = Vec::new();
     let plain = IoScript::plain();
     for at in 0..len {
@@ -1568,7 +1608,7 @@ pub fn sweep_cases(len: usize, sites: Option<&[layout::Site]>) -> Vec<Case> {
     }
     if let Some(sites) = sites {
         for s in sites {
-            for f in rewrites_of(s) {
+            for f in rewrites_of(s).into_iter().chain(string_cuts(s, bytes)) {
                 out.push(Case::Scale { faults: vec![f.clone()], reader: ReaderSpec::Slice });
                 out.push(Case::Scale { faults: vec![f.clone()], reader: ReaderSpec::NoLen });
                 out.push(Case::Scale { faults: vec![f], reader: ReaderSpec::Io(plain.clone()) });
@@ -1589,7 +1629,7 @@ pub fn sweep_scenario(frame: &PReg) -> Result<Option<WireScenario>, String> {
     if sites.is_none() {
         probe("aiming_parser.disagreement");
     }
-    let mut cases = sweep_cases(bytes.len(), sites.as_deref());
+    let mut cases = sweep_cases(bytes.len(), sites.as_deref(), &bytes);
     let n_scale_cases = cases.len();
     // the JSON form of the same frame: every single structural fault, and
     // every number token rewritten to out-of-range / malformed numbers
